@@ -470,6 +470,22 @@ def c16(obj, kind, case, cfg, rec):
     tr_out = outcome(lambda: obj.transform(case['X']))
     if tr_out[0] == 'ok':
         for f in feats:
+            if f in obj.quantitative_features:
+                # quantitative: every training row gets one of the labels the summary lists for the feature, and a larger value never gets an earlier row of the summary
+                KL = lambda l: repr(float(l)) if isinstance(l, (int, float, np.integer, np.floating)) and not isinstance(l, bool) else repr(l)          # rank labels: 0 and 0.0 are the same label
+                raw = ob.raw_feature_of(obj, f); rows = sm[sm['feature'] == f]; listed = [KL(l) for l in rows['label'].tolist()]
+                pos = {}
+                for i_, l_ in enumerate(listed): pos.setdefault(l_, i_)
+                pairs = [(v, KL(o)) for v, o in zip(case['X'][raw].tolist(), tr_out[1][f].tolist()) if not isnan(v)]
+                unknown = [(v, o) for v, o in pairs if o not in pos][:4]
+                # (the summary rows are not listed in interval order; what must hold is that each listed label covers ONE interval of values: sorted by value, the
+                # rows carrying a label form one block, and equal values carry one label)
+                by_val = {}
+                for v, o in pairs: by_val.setdefault(v, set()).add(o)
+                seq = [sorted(by_val[v])[0] for v in sorted(by_val)]; blocks = [o for i_, o in enumerate(seq) if i_ == 0 or seq[i_ - 1] != o]
+                one_block = len(blocks) == len(set(blocks)) and all(len(x) == 1 for x in by_val.values())
+                rec('C16:summary#post.label_shown_is_the_label_transform_outputs', not unknown and one_block, 'feature %s: transform outputs labels the summary does not list %r / a label does not cover one interval of values (labels along increasing values: %r; summary labels %r)' % (f, unknown, blocks[:8], listed[:6]), dict(feature=f))
+                continue
             if f not in obj.qualitative_features: continue
             raw = ob.raw_feature_of(obj, f); rows = sm[sm['feature'] == f]; shown = {}
             for _, rw in rows.iterrows():
